@@ -7,6 +7,7 @@ pub mod catalogue {
 }
 
 pub mod core_corpus;
+pub mod special;
 
 use sbase::Registry;
 
@@ -15,6 +16,7 @@ pub fn registry() -> Registry {
     let mut reg = Registry::new();
     catalogue::register(&mut reg);
     core_corpus::register(&mut reg);
+    special::register(&mut reg);
     #[cfg(feature = "corpus")]
     {
         c0::register(&mut reg);
